@@ -5,6 +5,8 @@ package main
 
 import (
 	"fmt"
+	"io"
+	"log/slog"
 	"strings"
 
 	"verif/vlib"
@@ -97,6 +99,32 @@ func applyReal(doc string, e edit) (res string, linesOK bool, panicked any) {
 	res = d.String()
 	linesOK = strings.Join(d.Lines, "\x00") == strings.Join(strings.Split(res, "\n"), "\x00")
 	return
+}
+
+var quietLog = slog.New(slog.NewTextHandler(io.Discard, nil))
+
+// applyBatch sends the edits as one batch of content changes through the server's DocumentContents.
+func applyBatch(doc string, es []edit) (res string, panicked any) {
+	defer func() {
+		if r := recover(); r != nil {
+			panicked = r
+		}
+	}()
+	srv := proxy.NewServer(quietLog, nil, nil, nil, true)
+	srv.TemplSource.Set("file:///t.templ", proxy.NewDocument(quietLog, doc))
+	var changes []lsp.TextDocumentContentChangeEvent
+	for _, e := range es {
+		c := lsp.TextDocumentContentChangeEvent{Text: e.text}
+		if !e.full {
+			c.Range = &lsp.Range{Start: lsp.Position{Line: uint32(e.s.l), Character: uint32(e.s.c)}, End: lsp.Position{Line: uint32(e.e.l), Character: uint32(e.e.c)}}
+		}
+		changes = append(changes, c)
+	}
+	d, err := srv.TemplSource.Apply("file:///t.templ", changes)
+	if err != nil {
+		return "ERR:" + err.Error(), nil
+	}
+	return d.String(), nil
 }
 
 // applySeq applies the edits one after another to ONE real Document.
@@ -240,6 +268,12 @@ func main() {
 					want = e2.text
 				} else {
 					want = refApply(mid, e2.s, e2.e, e2.text)
+				}
+				// the same two changes as ONE didChange batch through DocumentContents.Apply (what Server.DidChange calls)
+				if gb, pb := applyBatch(doc0, []edit{e1, e2}); pb != nil {
+					run.Violation("panic", fmt.Sprintf("DocumentContents.Apply panicked: %v on open(%q) ; batch[%s, %s]", pb, doc0, e1, e2), map[string]any{"doc": doc0, "batch": []string{e1.String(), e2.String()}})
+				} else if gb != want {
+					run.Violation("batch-mismatch", fmt.Sprintf("open(%q) ; one notification with [%s, %s]: got %q want %q", doc0, e1, e2, gb, want), map[string]any{"doc": doc0, "batch": []string{e1.String(), e2.String()}, "got": gb, "want": want})
 				}
 				got, p := applySeq(doc0, []edit{e1, e2})
 				h := fmt.Sprintf("open(%q) ; %s ; %s (same object)", doc0, e1, e2)
